@@ -296,6 +296,25 @@ def c18_task(n_targets):
             elif None not in outs and len(outs) > 4 and outs[4] != ref[4]:
                 v.append(("serialisation-changes-run", "serialisation %s (%d bytes): run started %s and reported %s; with serialisation compact it started %s and reported %s" % (
                     name, len(text), outs[4]["started"], json.dumps(outs[4]["doc"].get("results"))[:300], ref[4]["started"], json.dumps(ref[4]["doc"].get("results"))[:300])))
+        # the file is re-serialised (write to a temporary name, rename over it) by another process at the very
+        # moment an invocation opens it: whichever of the two serialisations the invocation ends up reading,
+        # it is a complete serialisation of the same value (fault injected with an LD_PRELOAD shim)
+        cfg_path = r.path("Monorail.json")
+        nxt_path = r.path("Monorail.next.json")
+        pairs = [(sers[0], sers[-1]), (sers[-1], sers[0]), (sers[1], sers[0]), (sers[0], sers[1])]
+        for (n1, t1), (n2, t2) in pairs:
+            for ai, (api, argv) in enumerate((("config show", ["config", "show"]), ("analyze", ["analyze", "--target-groups"]), ("target show", ["target", "show", "-g"]))):
+                r.write("Monorail.json", t1)
+                r.write("Monorail.next.json", t2)
+                res = r.mr(*argv, env={"LD_PRELOAD": common.SWAP_ON_OPEN_SO, "MRV_SWAP_TARGET": cfg_path, "MRV_SWAP_WITH": nxt_path})
+                judged += 1
+                swapped = not os.path.exists(nxt_path)
+                if os.path.exists(nxt_path):
+                    os.unlink(nxt_path)
+                if not swapped:
+                    continue   # the file was not opened under that name: nothing was injected
+                if res.code != 0 or strip_ts(res.json()) != ref[ai]:
+                    v.append(("serialisation-swap-changes-output", "%s while %s (%d bytes) is replaced by %s (%d bytes) at the moment of the open: exit %s %s" % (api, n1, len(t1), n2, len(t2), res.code, res.err[:200])))
         # the same value after the environment changed under it (every serialisation above has been
         # accepted once by now): a target directory loses its files, then disappears. Whatever each API
         # answers now - acceptance or rejection - must again be the same for every serialisation.
